@@ -217,7 +217,7 @@ def check(case):
 
 
 def parts(tier):
-    return [Part("events", strategy=_case(), check=check, n={"quick": 960, "thorough": 20000})]
+    return [Part("events", strategy=_case(), check=check, n={"quick": 960, "thorough": 60000})]
 
 
 MANIFEST = {
